@@ -24,6 +24,7 @@ DOC = {
         "preceding the noise draw on every path that has a seed."
     ),
     "rules": {
+        "C14-R7": "the optimiser's working copy of the parameters evaluates its expressions on itself (Parameters.copy builds the copy through the constructor), so expression parameters follow the free parameters during the fit (shared with C12-R4)",
         "C14-R6": "automatic linking (link_clp unset) requires one common global dimension name over all datasets (shared with C09-R5)",
         "C14-R1": "simulate_from_clp / simulate_full_model and MatrixProvider.calculate_dataset_matrices / calculate_global_matrices all call MatrixProvider.calculate_dataset_matrix; nothing in glotaran/simulation calls a megacomplex' calculate_matrix directly; the dataset model is filled from the given parameters",
         "C14-R2": "data[:, i] = matrix_i @ clp(position i on the global dimension, selected by the matrix' clp labels); result allocated as zeros (model, global) on the given axes",
@@ -201,9 +202,16 @@ def r6(ctx) -> None:
     lib.check_linkable_requires_one_global_dimension(ctx, "C14-R6")
 
 
+def r7(ctx) -> None:
+    """The fit moves the same parameter set it evaluates: the working copy has its own expression evaluator (shared with C12-R4)."""
+    from glint.rules import c12
+
+    c12.r4(ctx, rule="C14-R7")
+
+
 def check(ctx) -> None:
     for g in check.groups:
         g(ctx)
 
 
-check.groups = [r1, r2, r3, r4, r5, r6]
+check.groups = [r1, r2, r3, r4, r5, r6, r7]
